@@ -349,3 +349,7 @@ pub(crate) use util::verif_hook as verif_hook_util;
 #[cfg(librasn_compiler_verif)]
 #[allow(unused_imports)]
 pub(crate) use enumerated::assign_enumeral_numbers as verif_assign_enumeral_numbers;
+
+#[cfg(librasn_compiler_verif)]
+#[allow(unused_imports)]
+pub(crate) use enumerated::verif_hook as verif_hook_enumerated;
